@@ -641,9 +641,25 @@ def build_from_positions(ctx, rng, w, kind, nb, pool=None):
     npkeys = rng.random() < 0.3
     ctx.log("from_positions", {"data": {str(k): v for k, v in data.items()}, "dtype": dt, "numpy_keys": npkeys})
 
+    layout = pick(rng, ["c", "c", "transposed", "fortran", "strided"])
+
+    def arr(v):
+        a = np.array(v, dtype=dt).reshape(-1, 2)
+        if layout == "transposed":
+            # built column-wise and transposed, e.g. np.array([ref_ids, positions]).T: not C-contiguous
+            return np.array([a[:, 0], a[:, 1]], dtype=dt).T if len(a) else a
+        if layout == "fortran":
+            return np.asfortranarray(a)
+        if layout == "strided":
+            big = np.zeros((2 * len(a), 2), dtype=dt)
+            big[::2] = a
+            return big[::2]
+        return a
+
     def make():
-        d = {(np.int64(k) if npkeys else k): np.array(v, dtype=dt).reshape(-1, 2) for k, v in data.items()}
+        d = {(np.int64(k) if npkeys else k): arr(v) for k, v in data.items()}
         ctx.op("from_positions")
+        ctx.op("from_positions_layout_" + layout)
         return KmerTable.from_positions(w.kalph, d)
 
     model = {k: list(v) for k, v in data.items() if v}
